@@ -630,4 +630,541 @@ macro_rules | `(tactic| wp1) => `(tactic| (apply s_discriminator (by assumption)
 
 end leaf
 
+section leaf2
+variable {e : Env}
+
+theorem isUpper_iff (c : UInt8) : isUpper c = true ↔ 65 ≤ c.toNat ∧ c.toNat ≤ 90 := by
+  simp [isUpper, u8_le_iff]
+
+theorem t_seqScan : ∀ (k : Nat) (c : UInt8) (st : St), st.len ≤ e.n → st.pos ≤ e.n → Stop e st.len →
+    ((isDigit c || isUpper c) = true → e.rd st.pos = some c ∧ st.pos ≤ st.len) →
+    Tri e st (seqScan k c) (fun _ st' => st'.len = st.len ∧ st'.pos ≤ e.n ∧ exN st' = exN st ∧ st.pos ≤ st'.pos) := by
+  intro k
+  induction k with
+  | zero => intro c st hl hp hs hc; exact tri_pure ⟨rfl, hp, rfl, Nat.le_refl _⟩
+  | succ k ih =>
+    intro c st hl hp hs hc
+    unfold seqScan
+    apply tri_ite
+    · intro hal
+      obtain ⟨hrd, hle⟩ := hc hal
+      have hr : (48 ≤ c.toNat ∧ c.toNat ≤ 57) ∨ (65 ≤ c.toNat ∧ c.toNat ≤ 90) := by
+        simp only [Bool.or_eq_true, isDigit_iff, isUpper_iff] at hal
+        exact hal
+      have hlt : st.pos < st.len := stop_strict hs hrd hle (by omega) (by omega) (by omega)
+      apply tri_bind
+      apply tri_modifySt
+      apply tri_bind
+      apply tri_getSt
+      apply tri_bind
+      apply tri_rdAt _ (by show st.pos + 1 ≤ e.n; omega)
+      intro c' hc'
+      refine tri_mono (ih c' _ (by exact hl) (by show st.pos + 1 ≤ e.n; omega) hs (fun _ => ⟨hc', by show st.pos + 1 ≤ st.len; omega⟩)) ?_
+      intro _ st' ⟨h1, h2, h3, h4⟩
+      exact ⟨h1, h2, h3, by have : st.pos + 1 ≤ st'.pos := h4; omega⟩
+    · intro _
+      exact tri_pure ⟨rfl, hp, rfl, Nat.le_refl _⟩
+
+theorem s_seqId {st : St} {Q : Int → St → Prop} (hl : st.len ≤ e.n) (hp : st.pos ≤ e.n) (hs : Stop e st.len)
+    (h : ∀ r st', st'.len = st.len → st'.len ≤ e.n → st'.pos ≤ e.n → Stop e st'.len → exN st ≤ exN st' →
+      st.pos ≤ st'.pos → Q r st') : Tri e st seqId Q := by
+  unfold seqId
+  apply tri_bind
+  apply s_curr hl hs
+  intro c hc
+  apply s_eof_if
+  · intro _
+    apply tri_pure
+    apply h <;> first | assumption | omega
+  · intro hlt
+    apply tri_bind
+    apply tri_getEnv
+    apply tri_bind
+    refine tri_mono (t_seqScan _ c st hl hp hs ?_) ?_
+    · intro hal
+      have hr : (48 ≤ c.toNat ∧ c.toNat ≤ 57) ∨ (65 ≤ c.toNat ∧ c.toNat ≤ 90) := by
+        simp only [Bool.or_eq_true, isDigit_iff, isUpper_iff] at hal
+        exact hal
+      exact ⟨by simpa using hc.2 (by omega), by omega⟩
+    · intro _ st' ⟨h1, h2, h3, h4⟩
+      apply tri_pure
+      apply h _ _ h1 (by omega) h2 (by rw [h1]; exact hs) (by omega) h4
+
+/-! ### helpers of dd_source_name -/
+
+/-- same `pos`, `len`, `expected` -/
+def Keep (st st' : St) : Prop := st'.pos = st.pos ∧ st'.len = st.len ∧ st'.expected = st.expected
+
+theorem Keep.refl (st : St) : Keep st st := ⟨rfl, rfl, rfl⟩
+theorem Keep.trans {a b c : St} (h1 : Keep a b) (h2 : Keep b c) : Keep a c :=
+  ⟨h2.1.trans h1.1, h2.2.1.trans h1.2.1, h2.2.2.trans h1.2.2⟩
+
+theorem t_neutral {st : St} (m : M Unit) [hm : Neutral m] : Tri e st m (fun _ st' => Keep st st') := by
+  obtain ⟨st', h1, h2, h3, h4⟩ := hm.out e st
+  exact ⟨(), st', h1, h2, h3, h4⟩
+
+theorem t_readRange {st : St} : ∀ (k i : Nat), i + k ≤ e.n + 1 → Tri e st (readRange i k) (fun _ st' => st' = st) := by
+  intro k
+  induction k with
+  | zero => intro i _; exact tri_pure rfl
+  | succ k ih =>
+    intro i hi
+    unfold readRange
+    apply tri_bind
+    apply tri_rdAt _ (by omega)
+    intro b _
+    apply tri_bind
+    refine tri_mono (ih (i + 1) (by omega)) ?_
+    intro r st' h
+    subst h
+    exact tri_pure rfl
+
+theorem t_appendFrom {st : St} (i k : Nat) (h : i + k ≤ e.n + 1) :
+    Tri e st (appendFrom i k) (fun _ st' => Keep st st') := by
+  unfold appendFrom
+  apply tri_bind
+  refine tri_mono (t_readRange k i h) ?_
+  intro bs st' h
+  subst h
+  exact t_neutral _
+
+theorem t_findByte {st : St} (c : UInt8) : ∀ (k i : Nat), i ≤ e.n →
+    Tri e st (findByte c k i) (fun r st' => st' = st ∧ ∀ d, r = some d → i ≤ d ∧ d ≤ e.n ∧ e.rd d = some c) := by
+  intro k
+  induction k with
+  | zero => intro i _; exact tri_pure ⟨rfl, by simp⟩
+  | succ k ih =>
+    intro i hi
+    unfold findByte
+    apply tri_bind
+    apply tri_rdAt _ hi
+    intro b hb
+    apply tri_ite
+    · intro hbc
+      have : b = c := by simpa using hbc
+      subst this
+      refine tri_pure ⟨rfl, ?_⟩
+      intro d hd
+      cases hd
+      exact ⟨Nat.le_refl _, hi, hb⟩
+    · intro _
+      apply tri_ite
+      · intro _
+        exact tri_pure ⟨rfl, by simp⟩
+      · intro hb0
+        have hb0 : b.toNat ≠ 0 := by
+          intro h; apply hb0; simp [u8_eq_iff, h]
+        have := rd_lt hb hb0
+        refine tri_mono (ih (i + 1) (by omega)) ?_
+        intro r st' ⟨h1, h2⟩
+        refine ⟨h1, fun d hd => ?_⟩
+        obtain ⟨h3, h4, h5⟩ := h2 d hd
+        exact ⟨by omega, h4, h5⟩
+
+theorem t_findDotDot {st : St} : ∀ (k i : Nat), i ≤ e.n →
+    Tri e st (findDotDot k i) (fun r st' => st' = st ∧
+      ∀ u, r = some u → i ≤ u ∧ e.rd u = some 46 ∧ e.rd (u + 1) = some 46) := by
+  intro k
+  induction k with
+  | zero => intro i _; exact tri_pure ⟨rfl, by simp⟩
+  | succ k ih =>
+    intro i hi
+    unfold findDotDot
+    apply tri_bind
+    apply tri_rdAt _ hi
+    intro b hb
+    apply tri_ite
+    · intro _
+      exact tri_pure ⟨rfl, by simp⟩
+    · intro hb0
+      have hb0 : b.toNat ≠ 0 := by
+        intro h; apply hb0; simp [u8_eq_iff, h]
+      have hlt := rd_lt hb hb0
+      have rest : Tri e st (findDotDot k (i + 1)) (fun r st' => st' = st ∧
+          ∀ u, r = some u → i ≤ u ∧ e.rd u = some 46 ∧ e.rd (u + 1) = some 46) := by
+        refine tri_mono (ih (i + 1) (by omega)) ?_
+        intro r st' ⟨h1, h2⟩
+        refine ⟨h1, fun u hu => ?_⟩
+        obtain ⟨h3, h4, h5⟩ := h2 u hu
+        exact ⟨by omega, h4, h5⟩
+      dsimp only
+      apply tri_ite
+      · intro hdot
+        have hdot : b = 46 := by simpa using hdot
+        subst hdot
+        apply tri_bind
+        apply tri_rdAt _ (by omega)
+        intro b1 hb1
+        apply tri_ite
+        · intro h1
+          have h1 : b1 = 46 := by simpa using h1
+          subst h1
+          refine tri_pure ⟨rfl, ?_⟩
+          intro u hu
+          cases hu
+          exact ⟨Nat.le_refl _, hb, hb1⟩
+        · intro _
+          exact rest
+      · intro _
+        exact rest
+
+theorem t_matchAt {st : St} : ∀ (cs : List UInt8) (i : Nat), i + cs.length ≤ e.n + 1 →
+    Tri e st (matchAt cs i) (fun _ st' => st' = st) := by
+  intro cs
+  induction cs with
+  | nil => intro i _; exact tri_pure rfl
+  | cons c cs ih =>
+    intro i hi
+    simp only [List.length_cons] at hi
+    unfold matchAt
+    apply tri_bind
+    apply tri_rdAt _ (by omega)
+    intro b _
+    apply tri_ite
+    · intro _; exact tri_pure rfl
+    · intro _; exact ih (i + 1) (by omega)
+
+theorem t_matchAt_nz {st : St} : ∀ (cs : List UInt8) (i : Nat), (∀ c ∈ cs, c.toNat ≠ 0) → i ≤ e.n →
+    Tri e st (matchAt cs i) (fun _ st' => st' = st) := by
+  intro cs
+  induction cs with
+  | nil => intro i _ _; exact tri_pure rfl
+  | cons c cs ih =>
+    intro i hnz hi
+    unfold matchAt
+    apply tri_bind
+    apply tri_rdAt _ hi
+    intro b hb
+    apply tri_ite
+    · intro _; exact tri_pure rfl
+    · intro hbc
+      have hbc : b = c := by simpa using hbc
+      subst hbc
+      have := rd_lt hb (hnz b (List.mem_cons_self))
+      exact ih (i + 1) (fun c hc => hnz c (List.mem_cons_of_mem _ hc)) (by omega)
+
+theorem t_dotLoop (dollar : Nat) (hd : dollar ≤ e.n) (hrd : e.rd dollar = some 36) :
+    ∀ (k sep : Nat) (st : St), sep ≤ dollar →
+    Tri e st (dotLoop dollar k sep) (fun sep' st' => Keep st st' ∧ sep ≤ sep' ∧ sep' ≤ dollar) := by
+  intro k
+  induction k with
+  | zero => intro sep st h; exact tri_pure ⟨Keep.refl _, Nat.le_refl _, h⟩
+  | succ k ih =>
+    intro sep st hsep
+    unfold dotLoop
+    apply tri_bind
+    apply tri_getEnv
+    apply tri_bind
+    refine tri_mono (t_findDotDot _ sep (by omega)) ?_
+    intro r st1 ⟨h1, h2⟩
+    subst h1
+    split
+    · exact tri_pure ⟨Keep.refl _, Nat.le_refl _, hsep⟩
+    · rename_i upd
+      obtain ⟨h3, h4, h5⟩ := h2 upd rfl
+      apply tri_ite
+      · intro _
+        exact tri_pure ⟨Keep.refl _, Nat.le_refl _, hsep⟩
+      · intro hle
+        have hne1 : upd ≠ dollar := by
+          intro h; subst h; rw [hrd] at h4; cases h4
+        have hne2 : upd + 1 ≠ dollar := by
+          intro h; rw [h] at h5; rw [hrd] at h5; cases h5
+        apply tri_bind
+        refine tri_mono (t_appendFrom sep (upd - sep) (by omega)) ?_
+        intro _ st2 hk2
+        apply tri_bind
+        refine tri_mono (t_neutral (appendSeparator colon2)) ?_
+        intro _ st3 hk3
+        refine tri_mono (ih (upd + 2) st3 (by omega)) ?_
+        intro sep' st4 ⟨hk4, h6, h7⟩
+        exact ⟨(hk2.trans hk3).trans hk4, by omega, h7⟩
+
+theorem t_findMapping {st : St} (dollar endp : Nat) (he : endp ≤ e.n) :
+    ∀ (l : List (List UInt8 × List UInt8)),
+    Tri e st (findMapping true dollar endp l) (fun r st' => st' = st ∧
+      ∀ code punc, r = some (code, punc) → dollar + code.length + 2 ≤ endp) := by
+  intro l
+  induction l with
+  | nil => exact tri_pure ⟨rfl, by simp⟩
+  | cons m l ih =>
+    obtain ⟨code, punc⟩ := m
+    unfold findMapping
+    apply tri_ite
+    · intro _; exact ih
+    · intro hfit
+      have hfit : dollar + code.length + 2 ≤ endp := by simpa using hfit
+      apply tri_bind
+      refine tri_mono (t_matchAt code (dollar + 1) (by omega)) ?_
+      intro b st' h1
+      subst h1
+      apply tri_ite
+      · intro _
+        refine tri_pure ⟨rfl, ?_⟩
+        intro c p h
+        cases h
+        exact hfit
+      · intro _; exact ih
+
+theorem asTrait_nz : ∀ c ∈ asTrait, c.toNat ≠ 0 := by decide
+
+theorem t_dollarLoop (endp : Nat) (hfx : e.fx.rustSpan = true) :
+    ∀ (k p : Nat) (d? : Option Nat) (st : St), st.len ≤ e.n → Stop e st.len → st.pos = p → p ≤ endp → endp ≤ st.len →
+    (∀ d, d? = some d → p ≤ d ∧ d ≤ e.n ∧ e.rd d = some 36) →
+    Tri e st (dollarLoop endp k p d?) (fun p' st' => st'.len = st.len ∧ exN st' = exN st ∧ st'.pos = p' ∧
+      p ≤ p' ∧ p' ≤ endp) := by
+  intro k
+  induction k with
+  | zero => intro p d? st _ _ hp hpe _ _; exact tri_pure ⟨rfl, rfl, hp, Nat.le_refl _, hpe⟩
+  | succ k ih =>
+    intro p d? st hl hs hp hpe hel hd
+    have done : Tri e st (pure p : M Nat) (fun p' st' => st'.len = st.len ∧ exN st' = exN st ∧ st'.pos = p' ∧
+        p ≤ p' ∧ p' ≤ endp) := tri_pure ⟨rfl, rfl, hp, Nat.le_refl _, hpe⟩
+    unfold dollarLoop
+    split
+    · exact done
+    · rename_i dollar
+      obtain ⟨hd1, hd2, hd3⟩ := hd dollar rfl
+      apply tri_ite
+      · intro _; exact done
+      · intro hlt
+        have hlt : dollar < endp := by simpa using hlt
+        apply tri_bind
+        apply tri_getEnv
+        apply tri_bind
+        refine tri_mono (t_dotLoop dollar hd2 hd3 _ p st hd1) ?_
+        intro sep st1 ⟨hk1, hs1, hs2⟩
+        apply tri_bind
+        refine tri_mono (t_appendFrom sep (dollar - sep) (by omega)) ?_
+        intro _ st2 hk2
+        apply tri_bind
+        rw [hfx]
+        refine tri_mono (t_findMapping dollar endp (by omega) _) ?_
+        intro r st3 ⟨h3, hmap⟩
+        subst h3
+        have hk := hk1.trans hk2
+        split
+        · exact tri_pure ⟨hk.2.1, exN_eq_of hk.2.2, by rw [hk.1]; exact hp, Nat.le_refl _, hpe⟩
+        · rename_i code punc
+          have hfit := hmap code punc rfl
+          -- after the (optional) "as TRAIT" test: a number `num` with p + num ≤ endp and a state that keeps pos/len
+          have cont : ∀ (num : Nat) (st4 : St), Keep st st4 → p + num ≤ endp → dollar < p + num →
+              Tri e st4 (do
+                let _ ← consumeN num
+                let p' := p + num
+                let d ← findByte 36 (e.n + 1) p'
+                dollarLoop endp k p' d) (fun p' st' => st'.len = st.len ∧ exN st' = exN st ∧ st'.pos = p' ∧
+                  p ≤ p' ∧ p' ≤ endp) := by
+            intro num st4 hk4 hn1 hn2
+            have hl4 : st4.len ≤ e.n := by rw [hk4.2.1]; exact hl
+            have hs4 : Stop e st4.len := by rw [hk4.2.1]; exact hs
+            apply tri_bind
+            apply s_consumeN num hl4 (by rw [hk4.1, hp]; omega) hs4
+            · intro c st5 _ _ _ _ _ _ hfail _
+              exfalso
+              rw [hk4.1, hk4.2.1, hp] at hfail
+              omega
+            · intro c st5 h51 h52 h53 h54 h55 h56 _ _
+              dsimp only
+              apply tri_bind
+              refine tri_mono (t_findByte 36 _ (p + num) (by omega)) ?_
+              intro d st6 ⟨h6, hd6⟩
+              rw [h6]
+              refine tri_mono (ih (p + num) d st5 h52 h54 (by rw [h56, hk4.1, hp]) hn1
+                (by rw [h51, hk4.2.1]; exact hel) hd6) ?_
+              intro p' st7 ⟨h71, h72, h73, h74, h75⟩
+              exact ⟨by rw [h71, h51, hk4.2.1], by rw [h72, h55]; exact exN_eq_of hk4.2.2, h73, by omega, h75⟩
+          apply tri_bind
+          apply tri_bind
+          refine tri_mono (t_matchAt_nz asTrait dollar asTrait_nz hd2) ?_
+          intro b st4 h4
+          subst h4
+          apply tri_ite
+          · intro _
+            apply tri_bind
+            refine tri_mono (t_neutral (appendBytes [62])) ?_
+            intro _ st5 hk5
+            apply tri_pure
+            exact cont (dollar - p + (endp - dollar)) st5 (hk.trans hk5) (by omega) (by omega)
+          · intro _
+            apply tri_bind
+            refine tri_mono (t_neutral (appendBytes punc)) ?_
+            intro _ st5 hk5
+            apply tri_pure
+            exact cont (dollar - p + code.length + 2) st5 (hk.trans hk5) (by omega) (by omega)
+
+/-- summary of a leaf function (CPS form is derived from it) -/
+def LeafPost (e : Env) (st : St) (r : Int) (st' : St) : Prop :=
+  st'.len = st.len ∧ st'.pos ≤ e.n ∧ exN st ≤ exN st' ∧ st.pos ≤ st'.pos ∧ (0 ≤ r → st.pos < st'.pos)
+
+theorem t_plain {st st0 : St} (n : Nat) (hl : st.len ≤ e.n) (hp : st.pos ≤ e.n) (hs : Stop e st.len)
+    (hn : st.pos + n ≤ st.len) (h0 : st0.pos < st.pos) (h0l : st.len = st0.len) (h0e : exN st0 ≤ exN st) :
+    Tri e st (do let _ ← consumeN n; pure (0 : Int)) (LeafPost e st0) := by
+  apply tri_bind
+  apply s_consumeN n hl hp hs
+  · intros; exfalso; omega
+  · intro c st' h1 h2 h3 h4 h5 h6 _ _
+    exact tri_pure ⟨by omega, h3, by omega, by omega, fun _ => by omega⟩
+
+theorem t_sourceName {st : St} (hfx : e.fx = Fixes.all) (hl : st.len ≤ e.n) (hp : st.pos ≤ e.n) (hs : Stop e st.len) :
+    Tri e st sourceName (LeafPost e st) := by
+  unfold sourceName
+  apply tri_bind
+  apply s_number hl hp hs
+  intro num st1 h11 h12 h13 h14 h15 h16 h17
+  apply tri_ite
+  · intro _
+    exact tri_pure ⟨h11, h13, h15, h16, fun h => by omega⟩
+  intro hnum
+  have hprog : st.pos < st1.pos := h17 (by omega)
+  apply tri_bind
+  apply tri_getEnv
+  apply tri_bind
+  apply tri_getSt
+  apply s_eof_if
+  · intro _
+    apply tri_bind
+    apply s_ddDebug 0 h12 h13 h14 (by omega)
+    intro st2 h21 h22 h23 h24 h25 h26 h27
+    exact tri_pure ⟨by omega, h23, by omega, by omega, fun _ => by omega⟩
+  intro hlt
+  dsimp only
+  have hov : (!e.fx.intOvf && decide (st1.pos + num.toNat > 2147483647)) = false := by
+    simp [hfx, Fixes.all]
+  rw [hov]
+  simp only [Bool.false_eq_true, ↓reduceIte]
+  apply tri_ite
+  · intro _
+    apply tri_bind
+    apply s_ddDebug 0 h12 h13 h14 (by omega)
+    intro st2 h21 h22 h23 h24 h25 h26 h27
+    exact tri_pure ⟨by omega, h23, by omega, by omega, fun _ => by omega⟩
+  intro hfit
+  have hfit : st1.pos + num.toNat ≤ st1.len := by omega
+  have plain := t_plain (st0 := st) num.toNat h12 h13 h14 hfit hprog h11 h15
+  apply tri_ite
+  · intro _; exact plain
+  intro _
+  apply tri_ite
+  · intro _; exact plain
+  intro _
+  apply tri_bind
+  apply tri_bind
+  apply tri_rdAt _ h13
+  intro x _
+  have hashPart : Tri e st1 (if (num.toNat == 17 && x == 104) = true then do
+        let bs ← readRange (st1.pos + 1) 16
+        pure (bs.all isXDigit)
+      else pure false) (fun _ st' => st' = st1) := by
+    apply tri_ite
+    · intro h17
+      have h17 : num.toNat = 17 := by
+        simp only [Bool.and_eq_true, beq_iff_eq] at h17
+        exact h17.1
+      apply tri_bind
+      refine tri_mono (t_readRange 16 (st1.pos + 1) (by omega)) ?_
+      intro bs st' h
+      subst h
+      exact tri_pure rfl
+    · intro _
+      exact tri_pure rfl
+  refine tri_mono hashPart ?_
+  intro isHash st' hst'
+  rw [hst']
+  apply tri_ite
+  · intro _; exact plain
+  intro _
+  apply tri_bind
+  refine tri_mono (t_neutral (appendSeparator colon2)) ?_
+  intro _ st2 hk2
+  have hl2 : st2.len ≤ e.n := by rw [hk2.2.1]; exact h12
+  have hs2 : Stop e st2.len := by rw [hk2.2.1]; exact h14
+  have hp2 : st2.pos ≤ e.n := by rw [hk2.1]; exact h13
+  have he2 : exN st2 = exN st1 := exN_eq_of hk2.2.2
+  -- the common tail `appendFrom p n; consumeN n; return 0`
+  have tail : Tri e st2 (do
+      appendFrom st1.pos num.toNat
+      let _ ← consumeN num.toNat
+      pure (0 : Int)) (LeafPost e st) := by
+    apply tri_bind
+    refine tri_mono (t_appendFrom st1.pos num.toNat (by omega)) ?_
+    intro _ st3 hk3
+    have hk := hk2.trans hk3
+    exact t_plain (st0 := st) num.toNat (by rw [hk.2.1]; exact h12) (by rw [hk.1]; exact h13)
+      (by rw [hk.2.1]; exact h14) (by rw [hk.1, hk.2.1]; exact hfit) (by rw [hk.1]; exact hprog)
+      (by rw [hk.2.1]; exact h11) (by rw [exN_eq_of hk.2.2]; exact h15)
+  try dsimp only
+  apply tri_bind
+  refine tri_mono (t_findByte 36 _ st1.pos h13) ?_
+  intro r st3 ⟨h3, hd⟩
+  rw [h3]
+  split
+  · exact tail
+  · rename_i dollar
+    apply tri_ite
+    · intro _; exact tail
+    intro hde
+    apply tri_bind
+    refine tri_mono (t_dollarLoop (st1.pos + num.toNat) (by simp [hfx, Fixes.all]) _ st1.pos (some dollar) st2 hl2 hs2
+      hk2.1 (by omega) (by rw [hk2.2.1]; exact hfit) (fun d hd' => hd d hd')) ?_
+    intro p' st4 ⟨h41, h42, h43, h44, h45⟩
+    try dsimp only
+    have hnum' : ((st1.pos + num.toNat : Nat) : Int) - (p' : Int) = ((st1.pos + num.toNat - p' : Nat) : Int) := by omega
+    rw [hnum']
+    unfold appendFromInt consumeInt
+    simp only [Int.natCast_nonneg, ge_iff_le, ↓reduceIte, Int.toNat_natCast]
+    apply tri_bind
+    refine tri_mono (t_appendFrom p' (st1.pos + num.toNat - p') (by omega)) ?_
+    intro _ st5 hk5
+    apply tri_bind
+    apply tri_bind
+    apply s_consumeN _ (by rw [hk5.2.1, h41]; exact hl2) (by rw [hk5.1, h43]; omega) (by rw [hk5.2.1, h41]; exact hs2)
+    · intro c st6 _ _ _ _ _ _ hfail _
+      exfalso
+      rw [hk5.1, hk5.2.1, h43, h41, hk2.2.1] at hfail
+      omega
+    · intro c st6 h61 h62 h63 h64 h65 h66 _ _
+      apply tri_pure
+      apply tri_pure
+      refine ⟨by rw [h61, hk5.2.1, h41, hk2.2.1, h11], h63, ?_, ?_, fun _ => ?_⟩
+      · rw [h65, exN_eq_of hk5.2.2, h42, he2]; exact h15
+      · rw [h66, hk5.1, h43]; omega
+      · rw [h66, hk5.1, h43]; omega
+
+
+theorem s_sourceName {st : St} {Q : Int → St → Prop} (hfx : e.fx = Fixes.all) (hl : st.len ≤ e.n) (hp : st.pos ≤ e.n)
+    (hs : Stop e st.len)
+    (h : ∀ r st', st'.len = st.len → st'.len ≤ e.n → st'.pos ≤ e.n → Stop e st'.len → exN st ≤ exN st' →
+      st.pos ≤ st'.pos → (0 ≤ r → st.pos < st'.pos) → Q r st') : Tri e st sourceName Q := by
+  refine tri_mono (t_sourceName hfx hl hp hs) ?_
+  intro r st' ⟨h1, h2, h3, h4, h5⟩
+  exact h r st' h1 (by omega) h2 (by rw [h1]; exact hs) h3 h4 h5
+
+macro_rules | `(tactic| wp1) => `(tactic| (apply s_seqId (by assumption) (by assumption) (by assumption); intros))
+macro_rules | `(tactic| wp1) => `(tactic| (apply s_sourceName (by assumption) (by assumption) (by assumption) (by assumption); intros))
+attribute [local irreducible] seqId sourceName templateParam functionParam callOffset discriminator
+
+theorem s_abiTag {st : St} {Q : Int → St → Prop} (hfx : e.fx = Fixes.all) (hl : st.len ≤ e.n) (hp : st.pos ≤ e.n)
+    (hs : Stop e st.len)
+    (h : ∀ r st', st'.len = st.len → st'.len ≤ e.n → st'.pos ≤ e.n → Stop e st'.len → exN st ≤ exN st' →
+      st.pos ≤ st'.pos → (0 ≤ r → st.pos < st'.pos) → Q r st') : Tri e st abiTag Q := by
+  unfold abiTag
+  wp
+  leaf_close h
+
+macro_rules | `(tactic| wp1) => `(tactic| (apply s_abiTag (by assumption) (by assumption) (by assumption) (by assumption); intros))
+attribute [local irreducible] abiTag
+
+theorem s_substitution {st : St} {Q : Int → St → Prop} (hfx : e.fx = Fixes.all) (hl : st.len ≤ e.n) (hp : st.pos ≤ e.n)
+    (hs : Stop e st.len)
+    (h : ∀ r st', st'.len = st.len → st'.len ≤ e.n → st'.pos ≤ e.n → Stop e st'.len → exN st ≤ exN st' →
+      st.pos ≤ st'.pos → (0 ≤ r → st.pos < st'.pos) → Q r st') : Tri e st substitution Q := by
+  unfold substitution
+  wp
+  leaf_close h
+
+macro_rules | `(tactic| wp1) => `(tactic| (apply s_substitution (by assumption) (by assumption) (by assumption) (by assumption); intros))
+
+end leaf2
+
 end Uft.Demangle
